@@ -550,6 +550,10 @@ def signature(clause, case, events, rnd):
         head += 'maxtime-assigned-after-parse-%s:' % ('larger' if cfg['late'] > cfg['horizon'] else 'smaller')
     if clause == 'C10_Lengths':
         tic = sorted({ic['name'] for ic in cfg['ics'] if ic['name'] in TIME_NAMES})
+        lookalike = sorted({v['name'] for v in cfg['vars'] if v['name'] not in ('t', 't_minus_1', 'MaxTime')
+                            and v['name'].lower() in ('t', 't_minus_1', 'maxtime')})
+        if lookalike:
+            head += 'names-like-special-names-%s:' % '+'.join(lookalike)
         if tic and not any(v['name'] == 't' for v in cfg['vars']):
             head += 'ic-on-%s-without-equation-for-t:' % '+'.join(tic)
         bad = sorted({var_class(cfg, o['name']) for o in obs if o['len'] != h + 1})
@@ -649,7 +653,7 @@ def judge(rep, cases, count=True):
 
 def run(rep):
     cfgs = ['MC_Horizon_quick.cfg'] if rep.tier == 'quick' else ['MC_Horizon_quick.cfg', 'MC_Horizon_thorough.cfg']
-    rep.rule = ('configurations = all initial states of the bounded Horizon instance (5 blueprints, three of them also under variable names ending in 0 / holding a 0 / differing by a trailing 0 (h1, h10) x exogenous form '
+    rep.rule = ('configurations = all initial states of the bounded Horizon instance (5 blueprints, three of them also under variable names ending in 0 / holding a 0 / differing by a trailing 0 (h1, h10) and under names that differ from the special names of the parser only in letter case (T, T_MINUS_1, maxtime) x exogenous form '
                 'and length x initial condition on none / each non-exogenous variable / all / the time axis t and t_minus_1 with and without an equation for t, as float, int or '
                 'undefined name, with the stated value non-zero or zero x horizon x MaxTime in block / on solver before parsing / both with different values (solver wins, 0 included) / absent / in block and a larger or smaller value assigned to the solver after EquationSolver(block) or ParseString(block) x reduction on/off; plus histories of two blocks parsed one after the other into ONE solver object - first round with the horizon only in its block (ParseString or constructor, solved or only parsed) or written to the solver (before or late), second round with its own MaxTime line / none / solver written again / the kept solver value against another line), each solved by '
                 'TLC and emitted; every one is replayed at block level with its integer values, a seeded sample again '
